@@ -151,6 +151,7 @@ type sparser struct {
 	toks []tok
 	p    int
 	src  string
+	noIn int
 }
 
 func parseSpecExpr(src string) (e Expr, err error) {
@@ -231,7 +232,9 @@ func (p *sparser) expr() Expr {
 		p.next()
 		n := p.next()
 		p.expect("=")
+		p.noIn++
 		v := p.iff()
+		p.noIn--
 		if !p.isId("in") {
 			p.fail("expected 'in'")
 		}
@@ -316,7 +319,7 @@ func (p *sparser) cmp() Expr {
 			x = cur
 			continue
 		}
-		if t.k == "id" && t.s == "in" {
+		if t.k == "id" && t.s == "in" && p.noIn == 0 {
 			p.next()
 			y := p.addE()
 			x = &EBinary{"in", x, y}
